@@ -262,14 +262,28 @@ Proof.
   - intros tw Hq. unfold quote_twin in Hq. rewrite Hk in Hq. discriminate.
 Qed.
 
-Theorem document_passes_pb src t0 : PbGapped 0 (length src) t0 ->
-  exists t9, document_passes src t0 = Ok t9 /\ PbGapped 0 (length src) t9 /\
-    QuotesOkBut (unpaired_quote t9) t9 /\ (NoTwins t0 -> QuotesOk t9).
+(* the passes after newlines_to_breaks (phase 7: split off so that vectors which are PbGapped only from there on —
+   inert zero-width Newlines, C02ZeroWidthNl.v — can reuse them) *)
+Definition document_tail (src : text) (t3 : list token) : res (list token) :=
+  do t4 <- condense_number_suffixes src t3;
+  do t5 <- condense_contractions src t4;
+  do t6 <- condense_dotted_initialisms t5;
+  do t7 <- condense_ellipsis src t6;
+  do t8 <- condense_latin src t7;
+  do t9 <- match_quotes t8;
+  do _ <- word_lookup_check src t9;
+  Ok t9.
+
+Lemma document_passes_tail src ts :
+  document_passes src ts =
+  (do t1 <- condense_spaces ts; do t2 <- condense_newlines t1; document_tail src (newlines_to_breaks t2)).
+Proof. reflexivity. Qed.
+
+Theorem document_tail_pb src t3 : PbGapped 0 (length src) t3 ->
+  exists t9, document_tail src t3 = Ok t9 /\ PbGapped 0 (length src) t9 /\
+    QuotesOkBut (unpaired_quote t9) t9 /\ (Forall notwin t3 -> QuotesOk t9).
 Proof.
-  intros T0.
-  destruct (condense_spaces_pb _ _ _ T0) as [t1 [E1 T1]].
-  destruct (condense_newlines_pb _ _ _ T1) as [t2 [E2 [G2 T2]]].
-  destruct (newlines_to_breaks_pb _ _ _ T2) as [G3 T3].
+  intros T3.
   destruct (condense_number_suffixes_pb src _ _ T3) as [t4 [E4 [G4 T4]]].
   destruct (condense_contractions_pb src _ _ _ T4) as [t5 [E5 [G5 T5]]].
   destruct (condense_dotted_initialisms_pb _ _ _ T5) as [t6 [E6 [G6 T6]]].
@@ -277,7 +291,7 @@ Proof.
   destruct (condense_latin_pb src _ _ T7) as [t8 [E8 [G8 T8]]].
   destruct (match_quotes_pb _ _ _ T8) as [t9 [E9 [SB [T9 [QB QO]]]]].
   exists t9. split; [|split; [exact T9|split]].
-  - unfold document_passes. rewrite E1. cbn [bind]. rewrite E2. cbn [bind]. cbv zeta.
+  - unfold document_tail.
     rewrite E4. cbn [bind]. rewrite E5. cbn [bind]. rewrite E6. cbn [bind].
     rewrite E7. cbn [bind]. rewrite E8. cbn [bind]. rewrite E9. cbn [bind].
     rewrite (word_lookup_goodw src t9 (pbgapped_goodw src 0 t9 T9)). reflexivity.
@@ -293,19 +307,7 @@ Proof.
           try (destruct p; discriminate); try (destruct p0; discriminate).
         destruct p; destruct p0; try discriminate; reflexivity. }
     unfold unpaired_quote. rewrite EQ. exact QB.
-  - intros NT. apply QO.
-    assert (Forall notwin t1) as N1 by (eapply condense_spaces_notwins; [exact E1|exact NT]).
-    assert (Forall notwin t2) as N2.
-    { eapply (grouped_notwins G_newlines); [|exact G2|exact N1].
-      intros g k _ [[t [-> ->]]|[ns [_ [_ ->]]]]; [gn_single|gn_other]. }
-    assert (Forall notwin (newlines_to_breaks t2)) as N3.
-    { eapply (grouped_notwins G_breaks); [|exact G3|exact N2].
-      intros g k _ [t [-> ->]]. unfold newline_to_break.
-      destruct (tkind_of t) as [ |p| |nb|sn|n| | | | | | ] eqn:E;
-        try (left; exists t; split; [left; reflexivity|reflexivity]).
-      destruct (2 <=? n).
-      - right. intros tw. cbn [tkind_of]. discriminate.
-      - left. exists t. split; [left; reflexivity|reflexivity]. }
+  - intros N3. apply QO.
     assert (Forall notwin t4) as N4.
     { eapply (grouped_notwins (G_suffix src)); [|exact G4|exact N3].
       intros g k _ [[t [-> ->]]|[x [y [nb [cs [sfx [-> [_ [_ [_ [_ [_ ->]]]]]]]]]]]]; [gn_single|gn_other]. }
@@ -322,6 +324,39 @@ Proof.
     eapply (grouped_notwins (G_pattern_in t7 (latin_matches src) (fun k => k))); [|exact G8|exact N7].
     intros g k Hne [[t [-> ->]]|[pre [rest [_ [_ ->]]]]]; [gn_single|].
     left. exists (hd dummy_tok g). split; [apply hd_in; exact Hne|reflexivity].
+Qed.
+
+(* notwin through condense_newlines / newlines_to_breaks (groupings on ANY vector) *)
+Lemma newlines_notwins t1 t2 : Grouped G_newlines t1 t2 -> Forall notwin t1 -> Forall notwin t2.
+Proof.
+  intros G2 N1. eapply (grouped_notwins G_newlines); [|exact G2|exact N1].
+  intros g k _ [[t [-> ->]]|[ns [_ [_ ->]]]]; [gn_single|gn_other].
+Qed.
+
+Lemma breaks_notwins t2 : Forall notwin t2 -> Forall notwin (newlines_to_breaks t2).
+Proof.
+  intros N2. eapply (grouped_notwins G_breaks); [|apply newlines_to_breaks_grouped|exact N2].
+  intros g k _ [t [-> ->]]. unfold newline_to_break.
+  destruct (tkind_of t) as [ |p| |nb|sn|n| | | | | | ] eqn:E;
+    try (left; exists t; split; [left; reflexivity|reflexivity]).
+  destruct (2 <=? n).
+  - right. intros tw. cbn [tkind_of]. discriminate.
+  - left. exists t. split; [left; reflexivity|reflexivity].
+Qed.
+
+Theorem document_passes_pb src t0 : PbGapped 0 (length src) t0 ->
+  exists t9, document_passes src t0 = Ok t9 /\ PbGapped 0 (length src) t9 /\
+    QuotesOkBut (unpaired_quote t9) t9 /\ (NoTwins t0 -> QuotesOk t9).
+Proof.
+  intros T0.
+  destruct (condense_spaces_pb _ _ _ T0) as [t1 [E1 T1]].
+  destruct (condense_newlines_pb _ _ _ T1) as [t2 [E2 [G2 T2]]].
+  destruct (newlines_to_breaks_pb _ _ _ T2) as [G3 T3].
+  destruct (document_tail_pb src _ T3) as [t9 [E9 [T9 [QB QO]]]].
+  exists t9. split; [|split; [exact T9|split; [exact QB|]]].
+  - rewrite document_passes_tail, E1. cbn [bind]. rewrite E2. cbn [bind]. exact E9.
+  - intros NT. apply QO. apply breaks_notwins. eapply newlines_notwins; [exact G2|].
+    eapply condense_spaces_notwins; [exact E1|exact NT].
 Qed.
 
 Print Assumptions document_passes_pb.
